@@ -311,12 +311,14 @@ def history_case(item):
     ref = _refs(m["id"], m["nodes"], m["faces"], rules)
     g = mesh_grid(m["nodes"], m["faces"])
     steps = []
+    held = None      # the arrays the most recent compute_face_areas returned to the caller
     for act in item["acts"]:
         s = {"act": list(act), "raised": False, "kind": "none", "tags": [], "tags2": []}
         try:
             if act[0] == "compute":
                 rule, order = RULE_NAMES[act[1]]
                 a, j = g.compute_face_areas(rule, order, act[2])
+                held = (a, j)
                 s["kind"] = "pair"
                 s["tags"] = [[t[0], t[1]] for t, v in ref.items() if _same(a, v[0])]
                 s["tags2"] = [[t[0], t[1]] for t, v in ref.items() if _same(j, v[1])]
@@ -337,6 +339,17 @@ def history_case(item):
                     s["tags"] = [[t[0], t[1]] for t, v in ref.items() if _same(getattr(j, "values", j), v[1])]
             elif act[0] == "chunk":
                 g.chunk()
+                s["kind"] = "done"
+            elif act[0] == "edit":
+                # the caller changes ITS results in place (they are plain numpy arrays it was handed)
+                for arr in held or ():
+                    if isinstance(arr, np.ndarray) and arr.flags.writeable:
+                        if act[1] == "scale":
+                            arr *= 6371.0**2
+                        elif act[1] == "zero":
+                            arr[...] = 0.0
+                        else:
+                            arr[...] = arr[::-1].copy()
                 s["kind"] = "done"
             else:
                 s["kind"] = "unknown-act"
